@@ -10,19 +10,26 @@ cd "$(dirname "$0")/.."
 D=seeded/$NAME; mkdir -p $D
 cp $WT/SEEDED/patch.diff $WT/SEEDED/meta.json $D/ 2>/dev/null
 for f in $WT/SEEDED/*; do case "$f" in *TASK.md|*patch.diff|*meta.json|*/scratch) ;; *) cp -r "$f" $D/;; esac; done
-DEMO=$(python3 -c "import json;print(json.load(open('$D/meta.json'))['demo'])")
+DEMO=$(python3 -c "
+import json,re
+d=json.load(open('$D/meta.json'))['demo']
+d=re.split(r'\s{2,}\(|\s+\((?:file|run|from|it |the )', d)[0]
+print(d)")
 LOG=$D/verification.log; : > $LOG
 run() { (cd $WT && export GOFLAGS=-mod=mod GOPROXY=off GOSUMDB=off GOTOOLCHAIN=local && eval "$1") >> $LOG 2>&1; }
 echo "== patch applies to /repo HEAD:" >> $LOG
-git -C /repo apply --check $D/patch.diff >> $LOG 2>&1 && echo yes >> $LOG || echo "NO (worktree base differs)" >> $LOG
+git -C /repo apply --check $PWD/$D/patch.diff >> $LOG 2>&1 && echo yes >> $LOG || echo "NO (worktree base differs)" >> $LOG
 echo "== demo WITH patch (expect FAIL)" >> $LOG
 run "$DEMO"; WITH=$?
 echo "== demo WITHOUT patch (expect PASS)" >> $LOG
 (cd $WT && git apply -R SEEDED/patch.diff) >> $LOG 2>&1
 run "$DEMO"; WITHOUT=$?
 (cd $WT && git apply SEEDED/patch.diff) >> $LOG 2>&1
-echo "== pinned baseline packages WITH patch" >> $LOG
+echo "== pinned baseline packages WITH patch (demo test files moved aside)" >> $LOG
+ASIDE=$(mktemp -d "$VERIF_ROOT/.build/aside.XXXX")
+(cd $WT && git ls-files --others --exclude-standard | grep '_test.go$' | grep -v '^SEEDED/' | while read f; do mkdir -p "$ASIDE/$(dirname "$f")"; mv "$f" "$ASIDE/$f"; done)
 run "go1.26.8 test -vet=off -count=1 ./enginetest/scriptgen/setup ./errguard ./internal/regex ./internal/similartext ./internal/strings ./optgen/cmd/support ./sql/in_mem_table ./sql/planbuilder/dateparse ./sql/sqlredact"; BASE=$?
+(cd "$ASIDE" && find . -type f | while read f; do mv "$f" "$WT/$f"; done); rm -rf "$ASIDE"
 echo "== check $PROP $TIER against the patch" >> $LOG
 VERIF_NO_RECHECK=1 tools/with_patch.sh $D/patch.diff -- ./check $PROP $TIER > $D/check-output.txt 2>&1; CHK=$?
 grep -m3 "VIOLATION\|HARNESS" $D/check-output.txt >> $LOG
